@@ -42,6 +42,8 @@ def _file_case(a):
             if r['class'] != 'file' or f.get('profile') != pname:
                 continue
             name = f['name'].encode()
+            if 'disconnected path' in f.get('info', '') and not name.startswith(b'/'):
+                name = b'/' + name          # attached to the root by the flag the same record sets
             if 'l' in f.get('requested_mask', '') and f.get('target'):
                 name += b'\x00' + f['target'].encode()        # a link pair: the compiled policy matches `name NUL target`
             st = d.match(name) if d is not None else 0
